@@ -111,6 +111,35 @@ def run(ctx):
         it["mk"] = iso_filter(gx, gy, p, t % 60 == 0)
         items.append(it)
     mgh.validate(ctx, items, "V-isomorphic (9..14 vertices, relabelling verified by TLC)", "C05")
+    # the all-pairs call form returns the same kind of bracket for every ordered entry of its matrices
+    from ..common import run_driver_parallel, unfl
+    jobs, gl = [], []
+    for t in range(30 if quick else 300):
+        # cycles against cliques / stars / paths: pairs whose bracket is often not tight (lower < exact), where a swapped matrix entry shows
+        gs = [(lambda n, st: (n, mgh.rand_connected(rng, n, st)))(rng.randint(2, 7), rng.choice(["cycle", "cycle", "clique", "star", "path", "lollipop", "sparse"])) for _ in range(rng.randint(2, 4))]
+        jobs.append(dict(call="collection", graphs=[dict(n=g[0], edges=g[1], repr=mgh.CANON) for g in gs], seed=t, order=orders[t % 4]))
+        gl.append(gs)
+    res, _ = run_driver_parallel("mgh.py", jobs, nproc=8)
+    ccases, cmeta = [], []
+    for j, gs, r in zip(jobs, gl, res):
+        if "lbs" not in r:
+            ctx.failure({"clause": "collection-call-raised", "detail": r.get("raised")}, {"kind": "mgh", "job": j}); continue
+        for a in range(len(gs)):
+            for b in range(len(gs)):
+                if a != b:
+                    rr = {"lb": r["lbs"][a][b], "ub": r["ubs"][a][b], "warn": r.get("warn", 0)}
+                    ccases.append(mgh.pair_case(gs[a], gs[b], rr, True, algo=False)); cmeta.append((j, a, b))
+    if ccases:
+        vs, st = tlc.run_batch("TraceMGH", ccases, nproc=8, heap="3g")
+        ctx.extra.setdefault("trace_validation_runs", []).append(dict(label="V-collection-entries", cases=len(ccases), tlc_states=st["states"], wall_s=round(st["wall"], 1)))
+        for c, v, (j, a, b) in zip(ccases, vs, cmeta):
+            ctx.count(1, key=("coll", str(c["EX"]), str(c["EY"]), j["seed"]), nontrivial=(c["nX"] >= 3 or c["nY"] >= 3))
+            if v[2] in ("ok", "divergence"):
+                ctx.ok_trace()
+            elif v[2] == "machinery":
+                ctx.machinery_errors.append("TraceMGH: %s" % v[3])
+            else:
+                ctx.failure({"clause": v[3], "entry": [a, b], "form": "collection"}, {"kind": "mghcoll", "job": j, "entry": [a, b]})
     # larger graphs: counter-certificates only
     items = []
     nL, lo, hi = (40, 10, 16) if quick else (300, 10, 40)
@@ -132,6 +161,9 @@ def run(ctx):
 def replay(ctx, rec):
     c = rec["case"]
     j = c["job"]
+    if c.get("kind") == "mghcoll":
+        ctx.notes.append("collection entries: re-run ./check C05 (deterministic for a given VERIF_SEED)")
+        return
     g = j["graphs"]
     it = mgh.mk_pair_item((g[0]["n"], [tuple(e) for e in g[0]["edges"]]), (g[1]["n"], [tuple(e) for e in g[1]["edges"]]), g[0]["repr"], g[1]["repr"],
                           j.get("seed", 0), j.get("order"), bool(c.get("exact", 1)), c.get("owner", "C05"))
